@@ -87,7 +87,14 @@ class PositiveScalar(RegionAttribute):
             raise ValueError(f'{self.name!r} must be a scalar integer or '
                              'float')
 
-        if not np.isscalar(value) or value <= 0 or not np.isfinite(value):
+        try:
+            invalid = (not np.isscalar(value) or value <= 0
+                       or not np.isfinite(value))
+        except ArithmeticError:
+            # e.g., decimal.InvalidOperation when comparing Decimal('NaN')
+            invalid = True
+
+        if invalid:
             raise ValueError(f'{self.name!r} must be a strictly positive '
                              '(finite) scalar')
 
